@@ -99,9 +99,9 @@ type caseT struct {
 type event map[string]interface{}
 
 const (
-	rvTimeout   = 2 * time.Second
-	lineTimeout = 2 * time.Second
-	hsTimeout   = 1500 * time.Millisecond
+	rvTimeout   = 4 * time.Second
+	lineTimeout = 4 * time.Second
+	hsTimeout   = 2 * time.Second
 	earlyWindow = 100 * time.Millisecond
 )
 
